@@ -15,6 +15,7 @@ CONSTANTS
   MaxDup = 1
   MaxCancel = 1
   MaxFault = 1
+  StrictClosed = FALSE
   GenFocus = "none"
   WithHist = FALSE
 INVARIANTS TypeOK OwnReply NoStrayDelivered NoLoss Limit ExactAccounting NoUnderflow NoSpuriousRefusal QuiescentFree
